@@ -88,7 +88,8 @@ func (m *Models) versionEvent() Event {
 		switch x := in.(type) {
 		case *ssa.Store:
 			fa, ok := x.Addr.(*ssa.FieldAddr)
-			return ok && fieldOf(fa) == mm.fID
+			// a new id for an object, or a whole new keyspace (every key vanishes)
+			return ok && (fieldOf(fa) == mm.fID || fieldOf(fa) == mm.fKeyspace)
 		case ssa.CallInstruction:
 			cal := x.Common().StaticCallee()
 			if cal == nil || !mm.dictRem[cal] || len(x.Common().Args) == 0 {
